@@ -165,6 +165,9 @@ def run(ctx, rep):
     empty_disk_rule(P, rep)
     empty_disk_search_rule(P, rep, 'R-C10-8s')
     info_oldest_rule(P, rep, 'R-C10-6o')
+    split_count_capacity_rule(P, rep, 'R-C10-2b')
+    from .carried import level_loop_index_rule
+    level_loop_index_rule(P, rep, 'R-C10-9')
 
 
 # written member -> restored member, when the two sides legitimately use different names
@@ -855,3 +858,45 @@ def info_oldest_rule(P, rep, rid):
             if real and got > min(real) and bad is None:
                 bad = 'stripes %s (time, bad): base time %d although a stripe has time %d: every stripe older than the base is saved with the base time -- its sync / scrub age is lost at the next save' % ([a for a in arr], got, min(real))
     rep.check(bad is None, rid, 'state_write_content: base time = oldest real time', f.blocks[h][0].loc(), '%d info arrays' % n if bad is None else bad, function='state_write_content', construct='oldest time search')
+
+
+def split_count_capacity_rule(P, rep, rid):
+    """the number of split files of a parity level is limited by the array that holds them (split_map[SPLIT_MAX]): the configuration
+    accepts up to that many and the writer saves them, so the reader must accept exactly the counts 0..capacity.  The accepted
+    maximum is read off the range check of the decoded count in the 'Q' record (comparison evaluated, not matched) and compared with
+    the array length taken from the debug types: a stricter check makes a content file the tool wrote itself unreadable."""
+    rc = P.fn('state_read_content')
+    rep.analysed(rc)
+    rep.rule(rid, "state_read_content: the decoded split count of the 'Q' record is accepted up to the capacity of split_map[] (not more, not less)", 1)
+    dp = P.distructs.get('snapraid_parity'); ds = P.distructs.get('snapraid_split')
+    if not dp or not ds:
+        raise AnalysisBroken('layout of snapraid_parity not found')
+    sm = [m for m in dp['members'] if m['name'] == 'split_map'][0]
+    cap = (sm['bits'] // 8) // ds['size']
+    from .C09 import dead_blocks
+    dead = dead_blocks(rc)
+    found = None
+    for b in range(len(rc.blocks)):
+        t = rc.term(b)
+        if t.op != 'br' or len(t.ops) != 3:
+            continue
+        ci = rc.inst_of(t.ops[0])
+        if ci is None or ci.op != 'icmp' or rc.const_of(ci.ops[1]) is None:
+            continue
+        if rc.xexpr(ci.ops[0]) != 'v_split_mac':
+            continue
+        k = rc.const_of(ci.ops[1])
+        # values for which the branch goes to the side that cannot return (the rejection)
+        rej_true = t.ops[2][1] in dead
+        rej_false = t.ops[1][1] in dead
+        if rej_true == rej_false:
+            continue
+        from .C17 import _icmp
+        acc = [v for v in range(0, 2 * cap + 4) if _icmp(ci.pred, v, k) != rej_true]
+        found = (t, max(acc) if acc else -1, min(acc) if acc else -1)
+    if found is None:
+        raise AnalysisBroken("state_read_content: range check of the decoded split count not found")
+    t, hi, lo = found
+    rep.check(hi == cap and lo == 0, rid, 'decoded split count accepted for 0..%d' % cap, t.loc(),
+              'accepts %d..%d, split_map[] holds %d' % (lo, hi, cap) if hi == cap and lo == 0 else 'the reader accepts %d..%d but split_map[] holds %d entries and the configuration / writer use all of them: a content file written for %d split files passes its CRC and is then rejected by every command' % (lo, hi, cap, cap),
+              function='state_read_content', construct='split count bound')
